@@ -18,9 +18,13 @@ of the bucket (`earlier_events_untouched_*`).
 Which hypotheses of the property's quantifier are used:
 * strictly increasing timestamps: all three backends (it makes the newest event the last one);
 * non-decreasing end instants: no backend needs it;
-* Sqlite only: every heartbeat ends at or after the epoch (`0 ≤ ts + dur`). The limit-1 read of
-  that backend has the default lower bound `endtime >= 0` and does not see an event that ends
-  before the epoch; without the hypothesis the statement is false (`sqlite_before_epoch_false`).
+* no backend restricts where the heartbeats lie on the time axis. History of repair F22: the
+  Sqlite theorems used to carry "every heartbeat ends at or after the epoch" (`0 ≤ ts + dur`),
+  because the limit-1 read of that backend had the default lower bound `endtime >= 0` and did not
+  see an event ending before the epoch; without the hypothesis the statement was false
+  (`sqlite_before_epoch_false`, on the stream `Sqlite.cexStream`). Since the repair a read without
+  a start instant has no lower bound, the hypothesis is gone, and on the same stream the loop now
+  stores what `heartbeat_reduce` yields (`sqlite_before_epoch_now_read`).
 * durations may be zero, positive or negative, data arbitrary (any type with decidable equality),
   heartbeats may carry ids (they are ignored).
 -/
@@ -57,12 +61,11 @@ theorem loop_eq_reduce_Memory (pt : Int) (b : String) (s : Memory.St D) (m : Met
     ∃ s', Memory.hbLoop pt b s stream = .ok s' ∧ Memory.Inv s' ∧
       (∃ es, Memory.view s' b = some (m, es) ∧ es.map noId = (reduce pt stream).map noId) ∧
       ∀ b', b' ≠ b → Memory.view s' b' = Memory.view s b' := by
-  obtain ⟨s', h1, h2, ⟨es, h3, _, _, h4⟩, h5⟩ :=
-    foldE_loop Memory.view Memory.Inv (Memory.hbStep pt b) pt b (fun _ => True)
-      (fun _ _ _ => trivial) (fun _ _ _ _ _ _ => trivial)
+  obtain ⟨s', h1, h2, ⟨es, h3, _, h4⟩, h5⟩ :=
+    foldE_loop Memory.view Memory.Inv (Memory.hbStep pt b) pt b
       (fun _ _ _ hI hv => Memory.ids_nodup hI hv)
-      (fun s hb m es hI hv _ _ => Memory.hbStep_refines pt b s hb m es hI hv)
-      stream s m [] [] hI hv sorted_nil (fun _ _ => trivial) (fun _ _ => trivial) rfl
+      (fun s hb m es hI hv => Memory.hbStep_refines pt b s hb m es hI hv)
+      stream s m [] [] hI hv sorted_nil rfl
       (fun e he => by cases he) hts
   exact ⟨s', h1, h2, ⟨es, h3, h4⟩, h5⟩
 
@@ -74,10 +77,10 @@ theorem earlier_events_untouched_Memory (pt : Int) (b : String) (s : Memory.St D
     ∃ s' x, Memory.hbStep pt b s hb = .ok s' ∧ Memory.Inv s' ∧
       (Memory.view s' b = some (m, es.dropLast ++ [x]) ∨ Memory.view s' b = some (m, es ++ [x])) ∧
       ∀ b', b' ≠ b → Memory.view s' b' = Memory.view s b' :=
-  step_shape Memory.view Memory.Inv (Memory.hbStep pt b) pt b (fun _ => True)
+  step_shape Memory.view Memory.Inv (Memory.hbStep pt b) pt b
     (fun _ _ _ hI hv => Memory.ids_nodup hI hv)
-    (fun s hb m es hI hv _ _ => Memory.hbStep_refines pt b s hb m es hI hv)
-    s hb m es hI hv hs (fun _ _ => trivial) trivial
+    (fun s hb m es hI hv => Memory.hbStep_refines pt b s hb m es hI hv)
+    s hb m es hI hv hs
 
 /-- Memory backend, every turn of a run from the empty bucket: after the heartbeats `pre` the
     bucket holds `es1`; the next heartbeat leaves `es1.dropLast ++ [x]` or `es1 ++ [x]`. -/
@@ -88,93 +91,72 @@ theorem earlier_events_untouched_loop_Memory (pt : Int) (b : String) (s : Memory
       Memory.hbStep pt b s1 hb = .ok s2 ∧ Memory.hbLoop pt b s (pre ++ [hb]) = .ok s2 ∧
       (Memory.view s2 b = some (m, es1.dropLast ++ [x]) ∨ Memory.view s2 b = some (m, es1 ++ [x])) ∧
       ∀ b', b' ≠ b → Memory.view s2 b' = Memory.view s b' :=
-  foldE_prefix Memory.view Memory.Inv (Memory.hbStep pt b) pt b (fun _ => True)
-    (fun _ _ _ => trivial) (fun _ _ _ _ _ _ => trivial)
+  foldE_prefix Memory.view Memory.Inv (Memory.hbStep pt b) pt b
     (fun _ _ _ hI hv => Memory.ids_nodup hI hv)
-    (fun s hb m es hI hv _ _ => Memory.hbStep_refines pt b s hb m es hI hv)
-    s m pre hb hI hv (fun _ _ => trivial) hts
+    (fun s hb m es hI hv => Memory.hbStep_refines pt b s hb m es hI hv)
+    s m pre hb hI hv hts
 
 /-! ## Sqlite -/
 
-/-- Sqlite backend. Uses: bucket exists and is empty, strictly increasing timestamps, and every
-    heartbeat ends at or after the epoch. -/
+/-- Sqlite backend. Uses: bucket exists and is empty, strictly increasing timestamps. (Repaired,
+    F22: no hypothesis on where the heartbeats end; the theorem used to require that every
+    heartbeat ends at or after the epoch.) -/
 theorem loop_eq_reduce_Sqlite (pt : Int) (b : String) (s : Sqlite.St D) (m : Meta)
     (stream : List (Ev D)) (hI : Sqlite.Inv s) (hv : Sqlite.view s b = some (m, []))
-    (hts : stream.Pairwise (fun a c => a.ts < c.ts)) (hpos : ∀ e ∈ stream, 0 ≤ e.ts + e.dur) :
+    (hts : stream.Pairwise (fun a c => a.ts < c.ts)) :
     ∃ s', Sqlite.hbLoop pt b s stream = .ok s' ∧ Sqlite.Inv s' ∧
       (∃ es, Sqlite.view s' b = some (m, es) ∧ es.map noId = (reduce pt stream).map noId) ∧
       ∀ b', b' ≠ b → Sqlite.view s' b' = Sqlite.view s b' := by
-  obtain ⟨s', h1, h2, ⟨es, h3, _, _, h4⟩, h5⟩ :=
-    foldE_loop Sqlite.view Sqlite.Inv (Sqlite.hbStep pt b) pt b Sqlite.NonNeg
-      Sqlite.nonNeg_withId (Sqlite.nonNeg_merge pt)
+  obtain ⟨s', h1, h2, ⟨es, h3, _, h4⟩, h5⟩ :=
+    foldE_loop Sqlite.view Sqlite.Inv (Sqlite.hbStep pt b) pt b
       (fun _ _ _ hI hv => Sqlite.ids_nodup hI hv)
-      (fun s hb m es hI hv hq hqb => Sqlite.hbStep_refines pt b s hb m es hI hv hq hqb)
-      stream s m [] [] hI hv sorted_nil (fun x hx => by cases hx) hpos rfl
+      (fun s hb m es hI hv => Sqlite.hbStep_refines pt b s hb m es hI hv)
+      stream s m [] [] hI hv sorted_nil rfl
       (fun e he => by cases he) hts
   exact ⟨s', h1, h2, ⟨es, h3, h4⟩, h5⟩
 
-/-- Sqlite backend, under the property's "non-decreasing end instants": it is enough that the first
-    heartbeat ends at or after the epoch. -/
-theorem loop_eq_reduce_Sqlite_of_ends (pt : Int) (b : String) (s : Sqlite.St D) (m : Meta)
-    (stream : List (Ev D)) (hI : Sqlite.Inv s) (hv : Sqlite.view s b = some (m, []))
-    (hts : stream.Pairwise (fun a c => a.ts < c.ts))
-    (hends : stream.Pairwise (fun a c => a.ts + a.dur ≤ c.ts + c.dur))
-    (h0 : ∀ e, stream.head? = some e → 0 ≤ e.ts + e.dur) :
-    ∃ s', Sqlite.hbLoop pt b s stream = .ok s' ∧ Sqlite.Inv s' ∧
-      (∃ es, Sqlite.view s' b = some (m, es) ∧ es.map noId = (reduce pt stream).map noId) ∧
-      ∀ b', b' ≠ b → Sqlite.view s' b' = Sqlite.view s b' := by
-  apply loop_eq_reduce_Sqlite pt b s m stream hI hv hts
-  cases stream with
-  | nil => intro e he; cases he
-  | cons a rest =>
-    have ha := h0 a rfl
-    have hr := (List.pairwise_cons.mp hends).1
-    intro e he
-    rcases List.mem_cons.mp he with rfl | he
-    · exact ha
-    · have := hr e he; omega
-
-/-- Sqlite backend, one turn of the loop on a bucket in timestamp order none of whose events ends
-    before the epoch: it succeeds, all events but the last are unchanged, other buckets are
-    unchanged. -/
+/-- Sqlite backend, one turn of the loop on a bucket in timestamp order: it succeeds, all events
+    but the last are unchanged, other buckets are unchanged. (Repaired, F22: the stored events and
+    the heartbeat may end before the epoch.) -/
 theorem earlier_events_untouched_Sqlite (pt : Int) (b : String) (s : Sqlite.St D) (hb : Ev D)
     (m : Meta) (es : List (Ev D)) (hI : Sqlite.Inv s) (hv : Sqlite.view s b = some (m, es))
-    (hs : es.Pairwise (fun a c => a.ts < c.ts)) (hpos : ∀ e ∈ es, 0 ≤ e.ts + e.dur)
-    (hposb : 0 ≤ hb.ts + hb.dur) :
+    (hs : es.Pairwise (fun a c => a.ts < c.ts)) :
     ∃ s' x, Sqlite.hbStep pt b s hb = .ok s' ∧ Sqlite.Inv s' ∧
       (Sqlite.view s' b = some (m, es.dropLast ++ [x]) ∨ Sqlite.view s' b = some (m, es ++ [x])) ∧
       ∀ b', b' ≠ b → Sqlite.view s' b' = Sqlite.view s b' :=
-  step_shape Sqlite.view Sqlite.Inv (Sqlite.hbStep pt b) pt b Sqlite.NonNeg
+  step_shape Sqlite.view Sqlite.Inv (Sqlite.hbStep pt b) pt b
     (fun _ _ _ hI hv => Sqlite.ids_nodup hI hv)
-    (fun s hb m es hI hv hq hqb => Sqlite.hbStep_refines pt b s hb m es hI hv hq hqb)
-    s hb m es hI hv hs hpos hposb
+    (fun s hb m es hI hv => Sqlite.hbStep_refines pt b s hb m es hI hv)
+    s hb m es hI hv hs
 
 /-- Sqlite backend, every turn of a run from the empty bucket. -/
 theorem earlier_events_untouched_loop_Sqlite (pt : Int) (b : String) (s : Sqlite.St D) (m : Meta)
     (pre : List (Ev D)) (hb : Ev D) (hI : Sqlite.Inv s) (hv : Sqlite.view s b = some (m, []))
-    (hts : (pre ++ [hb]).Pairwise (fun a c => a.ts < c.ts))
-    (hpos : ∀ e ∈ pre ++ [hb], 0 ≤ e.ts + e.dur) :
+    (hts : (pre ++ [hb]).Pairwise (fun a c => a.ts < c.ts)) :
     ∃ s1 s2 es1 x, Sqlite.hbLoop pt b s pre = .ok s1 ∧ Sqlite.view s1 b = some (m, es1) ∧
       Sqlite.hbStep pt b s1 hb = .ok s2 ∧ Sqlite.hbLoop pt b s (pre ++ [hb]) = .ok s2 ∧
       (Sqlite.view s2 b = some (m, es1.dropLast ++ [x]) ∨ Sqlite.view s2 b = some (m, es1 ++ [x])) ∧
       ∀ b', b' ≠ b → Sqlite.view s2 b' = Sqlite.view s b' :=
-  foldE_prefix Sqlite.view Sqlite.Inv (Sqlite.hbStep pt b) pt b Sqlite.NonNeg
-    Sqlite.nonNeg_withId (Sqlite.nonNeg_merge pt)
+  foldE_prefix Sqlite.view Sqlite.Inv (Sqlite.hbStep pt b) pt b
     (fun _ _ _ hI hv => Sqlite.ids_nodup hI hv)
-    (fun s hb m es hI hv hq hqb => Sqlite.hbStep_refines pt b s hb m es hI hv hq hqb)
-    s m pre hb hI hv hpos hts
+    (fun s hb m es hI hv => Sqlite.hbStep_refines pt b s hb m es hI hv)
+    s m pre hb hI hv hts
 
-/-- Without "every heartbeat ends at or after the epoch" the Sqlite statement is false: two
-    heartbeats with equal data at −10 µs and −9 µs, 1 µs long, pulsetime 5 µs. `heartbeat_reduce`
-    merges them into one event; the loop stores two, because the limit-1 read (lower bound
-    `endtime >= 0`) does not return the first one. -/
-theorem sqlite_before_epoch_false :
+/-- History of repair F22. Two heartbeats with equal data at −10 µs and −9 µs, 1 µs long,
+    pulsetime 5 µs: `heartbeat_reduce` merges them into one event. Before the repair this stream
+    was the counterexample `sqlite_before_epoch_false` (the loop stored two events, because the
+    limit-1 read, with lower bound `endtime >= 0`, did not return the first one). On the same
+    witness the repaired limit-1 read returns the pre-1970 event after the first heartbeat, and
+    the loop stores exactly the one merged event. -/
+theorem sqlite_before_epoch_now_read :
     Sqlite.Inv Sqlite.exHb ∧ Sqlite.view Sqlite.exHb "c" = some (default, []) ∧
     Sqlite.cexStream.Pairwise (fun a c => a.ts < c.ts) ∧
+    (∃ s1, Sqlite.hbLoop 5 "c" Sqlite.exHb (Sqlite.cexStream.take 1) = .ok s1 ∧
+      Sqlite.getEvents s1 "c" 1 none none = [⟨some 4, -10, 1, 7⟩]) ∧
     ∃ s' es, Sqlite.hbLoop 5 "c" Sqlite.exHb Sqlite.cexStream = .ok s' ∧
-      Sqlite.view s' "c" = some (default, es) ∧
-      es.map noId ≠ (reduce 5 Sqlite.cexStream).map noId :=
-  ⟨Sqlite.exHb_inv, rfl, by decide, _, _, rfl, rfl, by decide⟩
+      Sqlite.view s' "c" = some (default, es) ∧ es = [⟨some 4, -10, 2, 7⟩] ∧
+      es.map noId = (reduce 5 Sqlite.cexStream).map noId :=
+  ⟨Sqlite.exHb_inv, rfl, by decide, ⟨_, rfl, by decide⟩, _, _, rfl, rfl, rfl, by decide⟩
 
 /-! ## Peewee -/
 
@@ -186,12 +168,11 @@ theorem loop_eq_reduce_Peewee (pt : Int) (b : String) (s : Peewee.St D) (m : Met
     ∃ s', Peewee.hbLoop pt b s stream = .ok s' ∧ Peewee.Inv s' ∧
       (∃ es, Peewee.view s' b = some (m, es) ∧ es.map noId = (reduce pt stream).map noId) ∧
       ∀ b', b' ≠ b → Peewee.view s' b' = Peewee.view s b' := by
-  obtain ⟨s', h1, h2, ⟨es, h3, _, _, h4⟩, h5⟩ :=
-    foldE_loop Peewee.view Peewee.Inv (Peewee.hbStep pt b) pt b (fun _ => True)
-      (fun _ _ _ => trivial) (fun _ _ _ _ _ _ => trivial)
+  obtain ⟨s', h1, h2, ⟨es, h3, _, h4⟩, h5⟩ :=
+    foldE_loop Peewee.view Peewee.Inv (Peewee.hbStep pt b) pt b
       (fun _ _ _ hI hv => Peewee.ids_nodup hI hv)
-      (fun s hb m es hI hv _ _ => Peewee.hbStep_refines pt b s hb m es hI hv)
-      stream s m [] [] hI hv sorted_nil (fun _ _ => trivial) (fun _ _ => trivial) rfl
+      (fun s hb m es hI hv => Peewee.hbStep_refines pt b s hb m es hI hv)
+      stream s m [] [] hI hv sorted_nil rfl
       (fun e he => by cases he) hts
   exact ⟨s', h1, h2, ⟨es, h3, h4⟩, h5⟩
 
@@ -203,10 +184,10 @@ theorem earlier_events_untouched_Peewee (pt : Int) (b : String) (s : Peewee.St D
     ∃ s' x, Peewee.hbStep pt b s hb = .ok s' ∧ Peewee.Inv s' ∧
       (Peewee.view s' b = some (m, es.dropLast ++ [x]) ∨ Peewee.view s' b = some (m, es ++ [x])) ∧
       ∀ b', b' ≠ b → Peewee.view s' b' = Peewee.view s b' :=
-  step_shape Peewee.view Peewee.Inv (Peewee.hbStep pt b) pt b (fun _ => True)
+  step_shape Peewee.view Peewee.Inv (Peewee.hbStep pt b) pt b
     (fun _ _ _ hI hv => Peewee.ids_nodup hI hv)
-    (fun s hb m es hI hv _ _ => Peewee.hbStep_refines pt b s hb m es hI hv)
-    s hb m es hI hv hs (fun _ _ => trivial) trivial
+    (fun s hb m es hI hv => Peewee.hbStep_refines pt b s hb m es hI hv)
+    s hb m es hI hv hs
 
 /-- Peewee backend, every turn of a run from the empty bucket. -/
 theorem earlier_events_untouched_loop_Peewee (pt : Int) (b : String) (s : Peewee.St D) (m : Meta)
@@ -216,11 +197,10 @@ theorem earlier_events_untouched_loop_Peewee (pt : Int) (b : String) (s : Peewee
       Peewee.hbStep pt b s1 hb = .ok s2 ∧ Peewee.hbLoop pt b s (pre ++ [hb]) = .ok s2 ∧
       (Peewee.view s2 b = some (m, es1.dropLast ++ [x]) ∨ Peewee.view s2 b = some (m, es1 ++ [x])) ∧
       ∀ b', b' ≠ b → Peewee.view s2 b' = Peewee.view s b' :=
-  foldE_prefix Peewee.view Peewee.Inv (Peewee.hbStep pt b) pt b (fun _ => True)
-    (fun _ _ _ => trivial) (fun _ _ _ _ _ _ => trivial)
+  foldE_prefix Peewee.view Peewee.Inv (Peewee.hbStep pt b) pt b
     (fun _ _ _ hI hv => Peewee.ids_nodup hI hv)
-    (fun s hb m es hI hv _ _ => Peewee.hbStep_refines pt b s hb m es hI hv)
-    s m pre hb hI hv (fun _ _ => trivial) hts
+    (fun s hb m es hI hv => Peewee.hbStep_refines pt b s hb m es hI hv)
+    s m pre hb hI hv hts
 
 /-! ## non-vacuity: concrete stores with two populated buckets and the empty bucket "c"
 
@@ -232,7 +212,7 @@ example :
     let stream : List (Ev Nat) :=
       [⟨none, 0, 1, 7⟩, ⟨none, 2, 1, 7⟩, ⟨some 4, 5, 0, 7⟩, ⟨none, 8, 0, 7⟩, ⟨none, 9, 0, 8⟩,
        ⟨none, 10, 1, 7⟩, ⟨none, 11, 0, 7⟩]
-    stream.Pairwise (fun a c => a.ts < c.ts) ∧ (∀ e ∈ stream, 0 ≤ e.ts + e.dur) ∧
+    stream.Pairwise (fun a c => a.ts < c.ts) ∧
     reduce 2 stream =
       [⟨none, 0, 5, 7⟩, ⟨none, 8, 0, 7⟩, ⟨none, 9, 0, 8⟩, ⟨none, 10, 1, 7⟩] ∧
     (∃ s', Memory.hbLoop 2 "c" Memory.exHb stream = .ok s' ∧ Memory.view s' "c" =
@@ -242,30 +222,43 @@ example :
     (∃ s', Peewee.hbLoop 2 "c" Peewee.exHb stream = .ok s' ∧ Peewee.view s' "c" =
       some (Peewee.Example.m0,
         [⟨some 4, 0, 5, 7⟩, ⟨some 5, 8, 0, 7⟩, ⟨some 6, 9, 0, 8⟩, ⟨some 7, 10, 1, 7⟩])) :=
-  ⟨by decide, by decide, by decide, ⟨_, rfl, rfl⟩, ⟨_, rfl, rfl⟩, ⟨_, rfl, rfl⟩⟩
+  ⟨by decide, by decide, ⟨_, rfl, rfl⟩, ⟨_, rfl, rfl⟩, ⟨_, rfl, rfl⟩⟩
 
 example := loop_eq_reduce_Memory 2 "c" Memory.exHb Memory.exMeta
   [⟨none, 0, 1, 7⟩, ⟨none, 2, 1, 7⟩, ⟨none, 9, 0, 8⟩] Memory.exHb_inv Memory.exHb_view (by decide)
 example := loop_eq_reduce_Sqlite 2 "c" Sqlite.exHb default
   [⟨none, 0, 1, 7⟩, ⟨none, 2, 1, 7⟩, ⟨none, 9, 0, 8⟩] Sqlite.exHb_inv Sqlite.exHb_view (by decide)
-  (by decide)
-example := loop_eq_reduce_Sqlite_of_ends 2 "c" Sqlite.exHb default
-  [⟨none, 0, 1, 7⟩, ⟨none, 2, 1, 7⟩, ⟨none, 9, 0, 8⟩] Sqlite.exHb_inv Sqlite.exHb_view (by decide)
-  (by decide) (by intro e he; cases he; decide)
+/-- the Sqlite loop theorem on a stream that lies wholly before the epoch (negative instants): the
+    former counterexample stream `cexStream` -/
+example := loop_eq_reduce_Sqlite 5 "c" Sqlite.exHb default Sqlite.cexStream
+  Sqlite.exHb_inv Sqlite.exHb_view (by decide)
 example := loop_eq_reduce_Peewee 2 "c" Peewee.exHb Peewee.Example.m0
   [⟨none, 0, 1, 7⟩, ⟨none, 2, 1, 7⟩, ⟨none, 9, 0, 8⟩] Peewee.exHb_inv Peewee.exHb_view (by decide)
 /-- the step theorems on populated buckets of the example stores -/
 example := earlier_events_untouched_Memory 2 "a" Memory.exHb ⟨none, 30, 1, 10⟩ Memory.exMeta
   [⟨some 0, 1, 1, 10⟩] Memory.exHb_inv rfl (by decide)
 example := earlier_events_untouched_Sqlite 2 "b" Sqlite.exHb ⟨none, 30, 1, 1⟩ default
-  [⟨some 2, 10, 2, 1⟩] Sqlite.exHb_inv rfl (by decide) (by decide) (by decide)
+  [⟨some 2, 10, 2, 1⟩] Sqlite.exHb_inv rfl (by decide)
+/-- … and on a bucket whose only event ends before the epoch (`Sqlite.cexLast`), with a heartbeat
+    before the epoch -/
+example := earlier_events_untouched_Sqlite 5 "a" Sqlite.cexLast ⟨none, -4, 1, ()⟩ default
+  [⟨some 1, -10, 5, ()⟩] Sqlite.cexLast_inv rfl (by decide)
 example := earlier_events_untouched_Peewee 2 "b" Peewee.exHb ⟨none, 30, 1, 8⟩ Peewee.Example.m0
   [⟨some 2, 10, 0, 8⟩] Peewee.exHb_inv rfl (by decide)
 example := earlier_events_untouched_loop_Memory 2 "c" Memory.exHb Memory.exMeta
   [⟨none, 0, 1, 7⟩, ⟨none, 2, 1, 7⟩] ⟨none, 9, 0, 8⟩ Memory.exHb_inv Memory.exHb_view (by decide)
 example := earlier_events_untouched_loop_Sqlite 2 "c" Sqlite.exHb default
   [⟨none, 0, 1, 7⟩, ⟨none, 2, 1, 7⟩] ⟨none, 9, 0, 8⟩ Sqlite.exHb_inv Sqlite.exHb_view (by decide)
-  (by decide)
+/-- … and on a state whose bucket holds an event ending before the epoch: the limit-1 read
+    returns it, the step merges the heartbeat into it (both lie before 1970) -/
+example := earlier_events_untouched_loop_Sqlite 5 "c" Sqlite.exHb default
+  [⟨none, -10, 1, 7⟩] ⟨none, -9, 1, 7⟩ Sqlite.exHb_inv Sqlite.exHb_view (by decide)
+example : ∃ s1, Sqlite.hbLoop 5 "c" Sqlite.exHb [⟨none, -10, 1, 7⟩] = .ok s1 ∧
+    Sqlite.view s1 "c" = some (default, [⟨some 4, -10, 1, 7⟩]) ∧
+    Sqlite.getEvents s1 "c" 1 none none = [⟨some 4, -10, 1, 7⟩] ∧
+    (∃ s2, Sqlite.hbStep 5 "c" s1 ⟨none, -9, 1, 7⟩ = .ok s2 ∧
+      Sqlite.view s2 "c" = some (default, [⟨some 4, -10, 2, 7⟩])) :=
+  ⟨_, rfl, rfl, by decide, _, rfl, rfl⟩
 example := earlier_events_untouched_loop_Peewee 2 "c" Peewee.exHb Peewee.Example.m0
   [⟨none, 0, 1, 7⟩, ⟨none, 2, 1, 7⟩] ⟨none, 9, 0, 8⟩ Peewee.exHb_inv Peewee.exHb_view (by decide)
 
